@@ -170,8 +170,8 @@ impl<'a, T: ColumnProvider> ExpressionExecutionEngine<'a, T> {
             }
             ExpressionTree::BooleanOperation { operator, left, right } => {
                 match operator {
-                    BooleanOperator::And => Ok(Value::Bool(self.evaluate(left)?.bool() && self.evaluate(right)?.bool())),
-                    BooleanOperator::Or => Ok(Value::Bool(self.evaluate(left)?.bool() || self.evaluate(right)?.bool()))
+                    BooleanOperator::And => Ok(Value::Bool(condition_holds(self.evaluate(left)?)? && condition_holds(self.evaluate(right)?)?)),
+                    BooleanOperator::Or => Ok(Value::Bool(condition_holds(self.evaluate(left)?)? || condition_holds(self.evaluate(right)?)?))
                 }
             }
             ExpressionTree::In { is_not, operand, values } => {
@@ -570,7 +570,7 @@ impl<'a, T: ColumnProvider> ExpressionExecutionEngine<'a, T> {
             }
             ExpressionTree::Case { clauses, else_clause } => {
                 for (bool_condition, result) in clauses {
-                    if self.evaluate(bool_condition)?.bool() {
+                    if condition_holds(self.evaluate(bool_condition)?)? {
                         return self.evaluate(result);
                     }
                 }
@@ -697,6 +697,16 @@ fn compare_int_float(x: i64, y: f64) -> Ordering {
             Ordering::Equal => 0.0.partial_cmp(&(y - y_integer)).unwrap_or(Ordering::Equal),
             ordering => ordering
         }
+    }
+}
+
+/// A condition (WHERE, HAVING, an operand of AND / OR, a WHEN clause) holds or does not hold: false and NULL do not.
+/// A value that is not a BOOLEAN has no truth value.
+pub fn condition_holds(value: Value) -> Result<bool, EvaluationError> {
+    match value {
+        Value::Bool(value) => Ok(value),
+        Value::Null => Ok(false),
+        value => Err(EvaluationError::TypeError(ValueType::Bool, value.value_type().unwrap_or(ValueType::Bool)))
     }
 }
 
